@@ -1012,7 +1012,12 @@ func (dsc *dataStoreCommand) dictScanUnlocked(data *redisDict, cursor uint32, pa
 	count int,
 	isMatch func(item *redisDictItem) any) (output respValue) {
 	result := make([]any, 2)
-	matches := make([]any, 0, count)
+	capacity := count
+	if capacity > data.count {
+		// (the count comes from the client and may be huge)
+		capacity = data.count
+	}
+	matches := make([]any, 0, capacity)
 
 	highBit := uint32(len(data.buckets)) // always a power of 2
 	shift := 32 - bitPosition(highBit)
